@@ -1,6 +1,7 @@
 (* Invariants of the interleaving model (AtomicLTS.v) and their consequences,
    for every number of threads, every program and every schedule. *)
 From SV Require Import Base.ListX Alloc.LifeProps Alloc.AllocRefine Conc.AtomicLTS.
+From SV Require World.World World.WorldSpec World.Simulation.
 From Coq Require Import Permutation.
 
 Ltac norm := cbn [fst snd gens alive raised killed cache clen max_id a_stuck
@@ -137,11 +138,6 @@ Proof.
     + intros Hs. destruct (NS.mem (fst e) (raised a')); [|assumption]. rewrite E0. assumption.
     + intros Hs. apply Z.eqb_eq in Hs. lia.
 Qed.
-
-(* a handle that does not carry the next generation of a dead, not yet
-   re-raised index: its aliveness cannot change during the phase *)
-Definition h_stable (a : astate) (e : entity) : bool :=
-  negb ((gen_at a (fst e) <? 0)%Z && (snd e =? 1 - gen_at a (fst e))%Z && negb (NS.mem (fst e) (raised a))).
 
 Lemma stable_alive a a' e : ale a a' -> (1 <= snd e)%Z -> h_stable a e = true -> a_is_alive a' e = a_is_alive a e.
 Proof.
@@ -1071,3 +1067,116 @@ Proof.
 Qed.
 
 End Refine.
+
+(* ------------------------------------------------------------------ *)
+(* the statements of property C10, from R *)
+
+Lemma hinit_okb_spec a e : hinit_okb a e = true <-> hinit_ok a e.
+Proof.
+  unfold hinit_okb, hinit_ok. rewrite !andb_true_iff, N.ltb_lt, Z.leb_le. tauto.
+Qed.
+
+Section Final.
+Variables (a0 : astate) (s0 : lstate) (I : list entity) (progs : list (list cop)).
+Hypothesis HR : R a0 s0.
+Hypothesis HL : LInv s0.
+Hypothesis HI : forallb (hinit_okb a0) I = true.
+
+Let c0 := c_new a0 I progs.
+Let H0 : Init0 a0 := R_Init0 a0 s0 HR HL.
+
+Lemma HI' : Forall (hinit_ok a0) I.
+Proof. apply Forall_forall. intros e He. apply hinit_okb_spec. rewrite forallb_forall in HI. auto. Qed.
+
+Lemma reach_GI s : GI a0 I (run c0 s).
+Proof. apply (GI_run a0 I H0 HI'). apply (GI_new a0 I H0). Qed.
+
+(* (a) *)
+Theorem conc_handles_distinct s :
+  let c := run c0 s in
+  NoDup (all_mine c) /\ NoDup (map fst (all_mine c)) /\
+  forall e e0, In e (all_mine c) -> l_is_alive s0 e0 = true -> fst e <> fst e0.
+Proof.
+  intros c. destruct (returned_distinct a0 I H0 HI' progs s) as [N1 [N2 _]].
+  split; [exact N2|]. split; [exact N1|]. intros e e0. apply (returned_fresh a0 s0 I HR HL HI').
+Qed.
+
+(* (b) *)
+Theorem conc_alive_from_return s1 s2 k t e :
+  nth_error (threads (run c0 s1)) k = Some t -> In e (mine t) ->
+  a_is_alive (sh (run c0 (s1 ++ s2))) e = true.
+Proof.
+  intros Hk He. rewrite run_app. apply (created_alive_later a0 I H0 HI' _ k t e s2 (reach_GI s1) Hk He).
+Qed.
+
+(* (c) *)
+Theorem conc_delete_of_live_ok s k t e r :
+  nth_error (threads (run c0 s)) k = Some t -> In (OKill e r) (outs t) ->
+  (l_is_alive s0 e = true \/ In e (mine t)) -> r = None.
+Proof.
+  intros Hk Hin Hl. apply (kill_of_live_ok a0 I _ k t e r (reach_GI s) Hk Hin).
+  destruct Hl as [Hl|Hl]; [left | right; assumption]. apply (l_alive_a_alive a0 s0 e HR HL Hl).
+Qed.
+
+Theorem conc_delete_recorded s1 s2 k t e :
+  nth_error (threads (run c0 s1)) k = Some t -> In (OKill e None) (outs t) ->
+  NS.mem (fst e) (killed (sh (run c0 (s1 ++ s2)))) = true.
+Proof.
+  intros Hk Hin. rewrite run_app. apply (kill_ok_recorded a0 I _ k t e s2 (reach_GI s1) Hk Hin).
+Qed.
+
+Theorem conc_delete_check_passes s k t h r e :
+  nth_error (threads (run c0 s)) k = Some t ->
+  tpc t = PIdle -> prog t = CDelete h :: r -> resolve I t h = Some e ->
+  (l_is_alive s0 e = true \/ In e (mine t)) ->
+  a_is_alive (sh (run c0 s)) e = true.
+Proof.
+  intros Hk Hp Hpr Hres Hl. apply (kill_check_passes a0 I _ k t h r e (reach_GI s) Hk Hp Hpr Hres).
+  destruct Hl as [Hl|Hl]; [left | right; assumption]. apply (l_alive_a_alive a0 s0 e HR HL Hl).
+Qed.
+
+(* (d) *)
+Theorem conc_final_state_sequential s :
+  all_finished (run c0 s) = true ->
+  aeq (sh (run c0 s)) (fst (arun true a0 (lin_ops (run c0 s)))).
+Proof. apply (final_state_sequential a0 I H0 HI' progs s). Qed.
+
+Theorem conc_final_state_refines s :
+  all_finished (run c0 s) = true ->
+  let ops := lin_ops (run c0 s) in
+  let outs := snd (arun true a0 ops) in
+  lvalid s0 (with_choices ops outs) = true /\
+  snd (lrun s0 (with_choices ops outs)) = outs /\
+  R (sh (run c0 s)) (fst (lrun s0 (with_choices ops outs))) /\
+  LInv (fst (lrun s0 (with_choices ops outs))).
+Proof. apply (final_state_refines a0 s0 I HR HL HI' progs s). Qed.
+
+(* (e) *)
+Theorem conc_queue_interleaving s :
+  all_finished (run c0 s) = true ->
+  interleaving (map pushes progs) (queue (run c0 s)) /\
+  Permutation (concat (map pushes progs)) (queue (run c0 s)).
+Proof. apply (queue_is_interleaving a0 I progs s H0 HI'). Qed.
+
+(* no reachable state is stuck (no panic), every program is executed in order *)
+Theorem conc_never_stuck s :
+  a_stuck (sh (run c0 s)) = false /\ forall t, In t (threads (run c0 s)) -> ~ In OPanic (outs t).
+Proof. apply (never_stuck a0 I). apply reach_GI. Qed.
+
+Theorem conc_programs_in_order s :
+  map (fun t => done t ++ prog t) (threads (run c0 s)) = progs.
+Proof.
+  apply (progs_run a0 I H0 HI'); [apply (GI_new a0 I H0)|].
+  unfold c0, c_new. norm. rewrite map_map. cbn. apply map_id.
+Qed.
+
+End Final.
+
+(* every sequential prefix on the faithful world machine ends in a state
+   related by R to a lifecycle state: the phase may start after any history *)
+Theorem after_any_history os :
+  exists s0, R (World.w_alloc (fst (World.wrun true World.w_init os))) s0 /\ LInv s0.
+Proof.
+  destruct (Simulation.wrun_accepted os World.w_init WorldSpec.s_init 0%nat Simulation.RW_init) as [_ [sw H]].
+  exists (WorldSpec.s_life sw). split; [apply (Simulation.RW_alloc _ _ H) | apply (Simulation.RW_inv _ _ H)].
+Qed.
